@@ -42,7 +42,9 @@ type modelCases struct {
 	seenPart   map[string]bool
 }
 
-func newModelCases(prop string) *modelCases { return &modelCases{prop: prop, seenPart: map[string]bool{}} }
+func newModelCases(prop string) *modelCases {
+	return &modelCases{prop: prop, seenPart: map[string]bool{}}
+}
 
 func cb(s string) string { return vh.CoqBytes(s) }
 
